@@ -36,6 +36,10 @@ Topo(n) == CASE n = "one"   -> << <<>> >>
              [] n = "fork"  -> << <<2, 3>>, <<>>, <<>> >>
              [] n = "dia"   -> << <<2, 3>>, <<3>>, <<>> >>
              [] n = "dia4"  -> << <<2, 3>>, <<4>>, <<4>>, <<>> >>
+             \* an intermediate file with several includes: dropping an early one renumbers the later ones while
+             \* the root file may lose nothing at all
+             [] n = "mid"   -> << <<2>>, <<3, 4>>, <<>>, <<>> >>
+             [] n = "mid3"  -> << <<2>>, <<3, 4, 5>>, <<>>, <<>>, <<>> >>
 
 Fn(name, grp) == [name |-> name, g |-> grp, pre |-> "", a |-> <<>>, r |-> <<>>, t |-> <<>>]
 FnX(name, grp, pre) == [Fn(name, grp) EXCEPT !.pre = pre]
@@ -302,7 +306,11 @@ cQuick == <<
   \* function names that extend other names (anchoring of the patterns)
   U({"two"}, {"SBx"}, {"n"}, 1, <<{"fn1"}>>, "all"),
   \* two slots: parent / child chains across files
-  U({"chain"}, {"S"}, {"n"}, 2, <<{"parents"}, {"childs", "loose2"}>>, "few") >>
+  U({"chain"}, {"S"}, {"n"}, 2, <<{"parents"}, {"childs", "loose2"}>>, "few"),
+  \* an intermediate file that drops its first include and keeps a later one (include renumbering below an
+  \* untouched root): type references and default-value references
+  U({"mid"}, {"S"}, {"n"}, 2, <<{"parents"}, {"childs"}>>, "few"),
+  U({"mid"}, {"S"}, {"n", "c"}, 1, <<{"dflt"}>>, "few") >>
 
 cThorough == <<
   \* every edge kind / wrap / via / kind / placement, every topology
@@ -316,7 +324,11 @@ cThorough == <<
   \* two slots: chains of uses across files
   U({"two", "chain", "dia"}, {"S", "SB"}, {"n"}, 2, <<{"parents"}, {"child", "loose2"}>>, "few"),
   \* three slots
-  U({"chain", "dia"}, {"S"}, {"n"}, 3, <<{"parents"}, {"childs"}, {"childs", "loose2"}>>, "few") >>
+  U({"chain", "dia"}, {"S"}, {"n"}, 3, <<{"parents"}, {"childs"}, {"childs", "loose2"}>>, "few"),
+  \* include renumbering in an intermediate file (first of two / three includes dropped), base services there too
+  U({"mid", "mid3"}, {"S", "SB"}, {"n", "e"}, 2, <<{"parents"}, {"child"}>>, "few"),
+  U({"mid3"}, {"S"}, {"n"}, 3, <<{"parents"}, {"childs"}, {"childs"}>>, "few"),
+  U({"mid", "mid3"}, {"S", "SB"}, {"n", "c"}, 1, <<{"dflt"}>>, "all") >>
 
 \* Design-level results exported with every case: bok (layer B's result is Allowed by layer A -- the refinement
 \* B => A; a FALSE is a candidate defect that counts only when the real code shows it too) and asat (layer A allows
